@@ -37,7 +37,11 @@ RULE = ("every table (tp,fp,fn,tn) of naturals with total <= 6 (quick) / <= 12 (
         "(zero-cell tables are the point); standalone POD/POFD on random binary arrays with NaN, weights and every dims spelling; single tables "
         "held as 0-d count arrays with float64 and with int64 counts (all tables with total <= 2 / <= 3, every single-cell table, the empty "
         "table, random ones); tables produced by the public event route (BinaryContingencyManager / ThresholdEventOperator, then transform) on "
-        "constant, equal, all-missing and random 0/1 series, fully reduced (0-d) or with one dimension kept")
+        "constant, equal, all-missing and random 0/1 series, fully reduced (0-d) or with one dimension kept; round 4: those series stored as "
+        "bool / uint8-64 / int8-64 / float16-32 (both alike, or independently) in 60% of the event-route cases, the exchanged series, the "
+        "stand-alone functions on the same series and the manager object's own scores before / after transform; stand-alone POD / POFD with "
+        "weights multiplied by a positive constant from 2^-40 ... 2^40, 1e-12 ... 1e8 (45% of the weighted cases), compactly stored series "
+        "(25%), and two-variable Datasets whose NaN positions differ (every third case)")
 ASSUMPTIONS = ["natural logarithm (SEDI) is evaluated by the host's math.log on the model's exact rational arguments",
                "binary64 rounding is not modelled: implementation floats are compared with the exact rational value at 1e-9 relative"]
 TRUSTED = ["host math.log for SEDI"]
